@@ -795,6 +795,10 @@ def shards(tier, seed):
                     _split(specs, T, "pert", b, "one", decos=[(0, "known")], yorders=["asc"])
         _split(specs, T, "sub", dict(N=3, G=2, times="weak", timescale="quarter"), "one", decos=RICH_SUB[:1], opts=OPTS4)
         _split(specs, T, "sub", dict(N=4, G=1, times="id"), "alt2", decos=RICH_SUB, opts=OPTS4)
+        # node times that are consecutive doubles (equal in single precision): the sort inside subset / union
+        # must still order edges by the exact parent time
+        _split(specs, T, "sub", dict(N=3, G=2, times="id", timescale="ulp"), "one", decos=[(0, "unknown")], opts=OPTS4)
+        _split(specs, T, "uni", dict(N=3, G=2, times="id", timescale="ulp"), "one", decos=[(0, "unknown")], **dflt)
         _split(specs, T, "sub", dict(N=4, G=2, times="id"), "one", decos=RICH_SUB[:1], opts=OPTS4)
         _split(specs, T, "uni", dict(N=3, G=2, times="weak", timescale="quarter"), "one", decos=RICH_UNI[:1], **dflt)
         _split(specs, T, "uni", dict(N=4, G=1, times="id"), "one", decos=RICH_UNI, orders=ORD2, **full)
